@@ -8,9 +8,10 @@
 EXTENDS GQLValidate, GQLCorpus
 VARIABLE i
 Init == i = 1
-Next == i < Len(Corpus) /\ i' = i + 1
+All == Corpus \o CorpusV
+Next == i < Len(All) /\ i' = i + 1
 Spec == Init /\ [][Next]_i
-E == Corpus[i]
+E == All[i]
 S == SchemaById(E.schema)
 CatalogOK == \A k \in DOMAIN Catalog : SchemaOK(Catalog[k])
 CorpusValid == SpecValid(S, Reachable(E.doc))
